@@ -342,6 +342,58 @@ type c03state struct {
 	haveAnyOwn bool
 }
 
+// MonC03Signatures is the one clause of C03 that holds whatever an operator does to a node's watch-only flag or key
+// in the middle of a height: a node that is not faulty never broadcasts two different commits or two different
+// pre-commits at one height (direct or inside its own recovery messages).  Used in worlds with flag flips, where a
+// committed node that is silenced for a while legitimately follows the others to another view (seeded change C01m).
+func MonC03Signatures() *Mon {
+	type key struct {
+		n *Node
+		h uint32
+		t dbft.MessageType
+	}
+	first := map[key]Payload{}
+	check := func(n *Node, e Payload, via string) {
+		if e.T != dbft.CommitType && e.T != dbft.PreCommitType {
+			return
+		}
+		k := key{n, e.Ht, e.T}
+		if f, ok := first[k]; ok && f.Hash() != e.Hash() {
+			kk := "two-commits"
+			if e.T == dbft.PreCommitType {
+				kk = "two-precommits"
+			}
+			n.W.Fail("C03", fmt.Sprintf("node %d height %d: two different %ss (%s): %s vs %s", n.ID, e.Ht, vt.ShortType(e.T), via, f.Summary(), e.Summary()), kk)
+		} else if !ok {
+			first[k] = e
+		} else {
+			n.W.Stat("c03_commitment_repeated_identically")
+		}
+	}
+	return &Mon{Name: "C03sig",
+		Restarted: func(n *Node) {
+			for k := range first {
+				if k.n == n {
+					delete(first, k)
+				}
+			}
+		},
+		Broadcast: func(n *Node, p Payload) {
+			if n.Faulty {
+				return
+			}
+			check(n, p, "direct")
+			if rm, ok := p.Body.(*vt.RecoveryMessage); ok {
+				for _, e := range rm.Embedded {
+					if e.Author == n.ID && e.Ht == p.Ht {
+						check(n, e, "inside own recovery message")
+					}
+				}
+			}
+		},
+	}
+}
+
 func MonC03() *Mon {
 	st := map[*Node]map[uint32]*c03state{}
 	get := func(n *Node, h uint32) *c03state {
@@ -520,6 +572,16 @@ func MonC04() *Mon {
 					w.Stat("c04_response_checked")
 				}
 			case (p.T == dbft.CommitType && !w.Cfg.AMEVOn(h)) || p.T == dbft.PreCommitType:
+				if n.PastLife {
+					// a restarted node that re-broadcasts the (pre-)commit of its previous life, handed back by a peer: the
+					// evidence for that statement belonged to the previous instance
+					for _, e := range n.Seen[p.Ht] {
+						if e.Author == n.ID && e.T == p.T && e.Hash() == p.Hash() {
+							w.Stat("c04_retransmission_of_previous_life")
+							return
+						}
+					}
+				}
 				if p.Ht != h || p.V != v {
 					w.Fail("C04", fmt.Sprintf("node %d: %s for (%d,%d) broadcast at (%d,%d)", n.ID, p.T, p.Ht, p.V, h, v), "commit-wrong-epoch")
 					return
